@@ -1,12 +1,16 @@
-(* C04 — the printed order of map entries.
+(* C04 — the printed order of map entries (reprMap sorts by CmpTotal and breaks
+   ties on the key texts).
    (1) insertion sort gives one result for all permutations of its input when
        the comparison is a strict linear order on the elements present;
    (2) hence repr of a map does not depend on the iteration (insertion) order
-       when no two entries tie and CmpTotal is a strict order on the keys;
-   (3) in general it does: two keys that tie and collide in the hash come out
-       of the hash map (C07's trie model) in insertion order and are printed in
-       that order — a closed witness. *)
-From verif Require Import lib.Base lib.Utf8 model.C03 model.C08_Value model.C04 proofs.C04_text.
+       when CmpTotal is antisymmetric and transitive on the keys present and no
+       two entries have tying keys with the same text;
+   (3) CmpTotal is not transitive across exact and inexact numbers (C09), the
+       tie-break then makes the comparison cyclic, and with a hash collision
+       the printed order still depends on the insertion order — a closed
+       witness through C07's trie model. *)
+From verif Require Import lib.Base lib.Utf8 model.C03 model.C08_Value proofs.C08_Value_proofs
+  proofs.C09_proofs model.C04 proofs.C04_text.
 From verif Require model.C05 model.C07.
 From Coq Require Import Permutation Sorted QArith.
 Close Scope Q_scope.
@@ -92,66 +96,126 @@ Section SortUnique.
 End SortUnique.
 
 (* ------------------------------------------------------------------ *)
-(* CmpTotal is a strict linear order on the keys present and no two different
-   entries tie *)
-Record StrictKeys (rk : N -> Z) (m : list (value * value)) : Prop := {
-  sk_tie : forall e1 e2, In e1 m -> In e2 m -> cmp_total4 rk (fst e1) (fst e2) = OEq -> e1 = e2;
-  sk_flip : forall e1 e2, In e1 m -> In e2 m ->
-    cmp_total4 rk (fst e1) (fst e2) = OGt -> cmp_total4 rk (fst e2) (fst e1) = OLt;
-  sk_asym : forall e1 e2, In e1 m -> In e2 m ->
-    cmp_total4 rk (fst e1) (fst e2) = OLt -> cmp_total4 rk (fst e2) (fst e1) <> OLt;
-  sk_trans : forall e1 e2 e3, In e1 m -> In e2 m -> In e3 m ->
-    cmp_total4 rk (fst e1) (fst e2) = OLt -> cmp_total4 rk (fst e2) (fst e3) = OLt ->
-    cmp_total4 rk (fst e1) (fst e3) = OLt
+Lemma bytes_cmp_eq x : forall y, bytes_cmp x y = OEq -> x = y.
+Proof.
+  induction x as [|a x IH]; intros [|b y] H; cbn in H; try discriminate; [reflexivity|].
+  destruct (a ?= b) eqn:E; try discriminate. apply N.compare_eq in E. subst. f_equal. apply IH. exact H.
+Qed.
+
+(* the less function of reprMap is a strict linear order on the decorated
+   entries present when CmpTotal is antisymmetric and transitive on their keys
+   and tying keys have different texts *)
+Section KeyOrder.
+  Context {X : Type}.
+  Variable rk : N -> Z.
+  Variable P : value * (bytes * X) -> Prop.
+  Hypothesis Hanti : forall x y, P x -> P y ->
+    cmp_total rk (fst x) (fst y) = flip (cmp_total rk (fst y) (fst x)).
+  Hypothesis Htrans : forall x y z, P x -> P y -> P z -> TransAt (cmp_total rk) (fst x) (fst y) (fst z).
+  Hypothesis Hdistinct : forall x y, P x -> P y ->
+    cmp_total rk (fst x) (fst y) = OEq -> fst (snd x) = fst (snd y) -> x = y.
+
+  Notation lt := (@key_lt rk X).
+
+  Lemma key_lt_total a b : P a -> P b -> lt a b = true \/ lt b a = true \/ a = b.
+  Proof.
+    intros Pa Pb. unfold key_lt. pose proof (Hanti a b Pa Pb) as A.
+    pose proof (bytes_cmp_antisym (fst (snd a)) (fst (snd b))) as B.
+    destruct (cmp_total rk (fst a) (fst b)) eqn:E1; destruct (cmp_total rk (fst b) (fst a)) eqn:E2;
+      try discriminate A; try (left; reflexivity); try (right; left; reflexivity).
+    - destruct (bytes_cmp (fst (snd a)) (fst (snd b))) eqn:F1;
+        destruct (bytes_cmp (fst (snd b)) (fst (snd a))) eqn:F2; try discriminate B;
+        try (left; reflexivity); try (right; left; reflexivity).
+      + right. right. apply Hdistinct; try assumption. apply bytes_cmp_eq. exact F1.
+      + exfalso. exact (bytes_cmp_never_unc _ _ F1).
+    - exfalso. exact (cmp_total_never_unc rk _ _ E1).
+  Qed.
+
+  Lemma key_lt_asym a b : P a -> P b -> lt a b = true -> lt b a = false.
+  Proof.
+    intros Pa Pb. unfold key_lt. pose proof (Hanti a b Pa Pb) as A.
+    pose proof (bytes_cmp_antisym (fst (snd a)) (fst (snd b))) as B.
+    destruct (cmp_total rk (fst a) (fst b)) eqn:E1; destruct (cmp_total rk (fst b) (fst a)) eqn:E2;
+      try discriminate A; try discriminate; try reflexivity.
+    destruct (bytes_cmp (fst (snd a)) (fst (snd b))) eqn:F1;
+      destruct (bytes_cmp (fst (snd b)) (fst (snd a))) eqn:F2; try discriminate B; try discriminate; reflexivity.
+  Qed.
+
+  Lemma key_lt_trans a b c : P a -> P b -> P c -> lt a b = true -> lt b c = true -> lt a c = true.
+  Proof.
+    intros Pa Pb Pc. unfold key_lt. pose proof (Htrans a b c Pa Pb Pc) as T. unfold TransAt in T.
+    pose proof (bytes_cmp_trans (fst (snd a)) (fst (snd b)) (fst (snd c))) as TB.
+    destruct (cmp_total rk (fst a) (fst b)) eqn:E1; try discriminate;
+      destruct (cmp_total rk (fst b) (fst c)) eqn:E2; try discriminate; intros H1 H2.
+    - rewrite (T OLt eq_refl). reflexivity.
+    - rewrite (T OLt eq_refl). reflexivity.
+    - rewrite (T OLt eq_refl). reflexivity.
+    - rewrite (T OEq eq_refl).
+      destruct (bytes_cmp (fst (snd a)) (fst (snd b))) eqn:F1; try discriminate.
+      destruct (bytes_cmp (fst (snd b)) (fst (snd c))) eqn:F2; try discriminate.
+      rewrite (TB OLt eq_refl). reflexivity.
+  Qed.
+
+  Theorem key_sort_canonical l1 l2 : Forall P l1 -> Permutation l1 l2 -> isort lt l1 = isort lt l2.
+  Proof. apply (isort_canonical lt P key_lt_total key_lt_asym key_lt_trans). Qed.
+End KeyOrder.
+
+(* CmpTotal antisymmetric and transitive on the keys of m *)
+Record KeysOrdered (rk : N -> Z) (m : list (value * value)) : Prop := {
+  ko_anti : forall e1 e2, In e1 m -> In e2 m ->
+    cmp_total rk (fst e1) (fst e2) = flip (cmp_total rk (fst e2) (fst e1));
+  ko_trans : forall e1 e2 e3, In e1 m -> In e2 m -> In e3 m ->
+    TransAt (cmp_total rk) (fst e1) (fst e2) (fst e3)
 }.
 
-Lemma cmp_total4_never_unc rk a b : cmp_total4 rk a b <> OUn.
+(* C09: that holds when the numbers inside the keys are all exact, or all
+   inexact (and the types have different ranks) *)
+Lemma keys_ordered_of (p : value -> bool) rk m :
+  (p = is_exact \/ p = is_float) -> injective rk -> wfb (VMap m) = true ->
+  (forall e, In e m -> nums_all p (fst e) = true) -> KeysOrdered rk m.
 Proof.
-  destruct a; cbn [cmp_total4];
-    match goal with |- context [Z.compare ?x ?y] => destruct (Z.compare x y) end; try discriminate;
-    match goal with |- lift_total ?o <> OUn => destruct o; discriminate end.
+  intros Hp Inj W Hn.
+  assert (Wk : forall e, In e m -> wf (fst e)) by (intros e He; apply (wf_map_in m e W He)).
+  split.
+  - intros e1 e2 H1 H2. apply cmpg_antisym; auto.
+  - intros e1 e2 e3 H1 H2 H3. destruct Hp as [-> | ->].
+    + apply cmp_total_trans_exact; auto.
+    + apply cmp_total_trans_inexact; auto.
 Qed.
 
 Section ReprOrder.
 Variable is_print : N -> bool.
 Variable fmtF fmtE : N -> bytes.
 Variable rk : N -> Z.
+Notation repr := (C04.repr is_print fmtF fmtE rk).
 
-Theorem repr_order_canonical_partial m1 m2 ind :
-  Permutation m1 m2 -> StrictKeys rk m1 ->
-  repr is_print fmtF fmtE rk (VMap m1) ind = repr is_print fmtF fmtE rk (VMap m2) ind.
+(* tying keys print differently (a consequence of the round trip for values of
+   the domain, see C04_main.v) *)
+Definition TextsDistinct (m : list (value * value)) (ind : Z) : Prop :=
+  forall e1 e2, In e1 m -> In e2 m -> cmp_total rk (fst e1) (fst e2) = OEq ->
+    repr (fst e1) (ind + 1) = repr (fst e2) (ind + 1) -> e1 = e2.
+
+Theorem repr_order_canonical_gen m1 m2 ind :
+  Permutation m1 m2 -> KeysOrdered rk m1 -> TextsDistinct m1 ind ->
+  repr (VMap m1) ind = repr (VMap m2) ind.
 Proof.
-  intros Pm SK. cbn [repr]. f_equal. f_equal.
-  set (dec := fun e : value * value =>
-    (fst e, (repr is_print fmtF fmtE rk (fst e) (ind + 1), repr is_print fmtF fmtE rk (snd e) (ind + 2)))).
-  rewrite !(isort_map (@key_lt rk value) (@key_lt rk (bytes * bytes)) dec (fun a b => eq_refl)).
-  f_equal.
-  apply (isort_canonical (@key_lt rk value) (fun e => In e m1)).
-  - intros a b Ha Hb. unfold key_lt.
-    destruct (cmp_total4 rk (fst a) (fst b)) eqn:E.
-    + left. reflexivity.
-    + right. right. apply (sk_tie rk m1 SK); assumption.
-    + right. left. rewrite (sk_flip rk m1 SK a b Ha Hb E). reflexivity.
-    + exfalso. exact (cmp_total4_never_unc rk _ _ E).
-  - intros a b Ha Hb. unfold key_lt. destruct (cmp_total4 rk (fst a) (fst b)) eqn:E; try discriminate.
-    intros _. pose proof (sk_asym rk m1 SK a b Ha Hb E) as N.
-    destruct (cmp_total4 rk (fst b) (fst a)); try reflexivity. congruence.
-  - intros a b c Ha Hb Hc. unfold key_lt.
-    destruct (cmp_total4 rk (fst a) (fst b)) eqn:E1; try discriminate.
-    destruct (cmp_total4 rk (fst b) (fst c)) eqn:E2; try discriminate.
-    intros _ _. rewrite (sk_trans rk m1 SK a b c Ha Hb Hc E1 E2). reflexivity.
-  - apply Forall_forall. auto.
-  - exact Pm.
+  intros Pm KO TD. cbn [C04.repr]. f_equal. f_equal.
+  set (dec := fun e : value * value => (fst e, (repr (fst e) (ind + 1), repr (snd e) (ind + 2)))).
+  apply (key_sort_canonical rk (fun x => exists e, In e m1 /\ x = dec e)).
+  - intros x y (e1 & H1 & ->) (e2 & H2 & ->). apply (ko_anti rk m1 KO); assumption.
+  - intros x y z (e1 & H1 & ->) (e2 & H2 & ->) (e3 & H3 & ->). apply (ko_trans rk m1 KO); assumption.
+  - intros x y (e1 & H1 & ->) (e2 & H2 & ->) E T. cbn [dec fst snd] in *. rewrite (TD e1 e2 H1 H2 E T). reflexivity.
+  - apply Forall_forall. intros x Hx. apply in_map_iff in Hx as (e & <- & He). exists e. split; [exact He|reflexivity].
+  - apply Permutation_map. exact Pm.
 Qed.
-(* the same through nesting: repr is compositional, so values whose parts print
-   alike print alike; with the theorem above this covers maps rebuilt in other
-   insertion orders anywhere inside lists and map values *)
-Definition SameText (v v' : value) : Prop :=
-  forall ind, repr is_print fmtF fmtE rk v ind = repr is_print fmtF fmtE rk v' ind.
+
+(* through nesting: repr is compositional, so values whose parts print alike
+   print alike *)
+Definition SameText (v v' : value) : Prop := forall ind, repr v ind = repr v' ind.
 
 Lemma same_text_list s s' l l' : Forall2 SameText l l' -> SameText (VList s l) (VList s' l').
 Proof.
-  intros F ind. cbn [repr]. f_equal.
+  intros F ind. cbn [C04.repr]. f_equal.
   generalize (@nil N) as buf. induction F as [|e e' l l' H _ IH]; intros buf; [reflexivity|].
   cbn [fold_left]. rewrite (H (ind + 1)%Z). apply IH.
 Qed.
@@ -159,24 +223,24 @@ Qed.
 Lemma same_text_map_pointwise m m' :
   Forall2 (fun e e' => fst e = fst e' /\ SameText (snd e) (snd e')) m m' -> SameText (VMap m) (VMap m').
 Proof.
-  intros F ind. cbn [repr]. f_equal. f_equal. f_equal.
+  intros F ind. cbn [C04.repr]. f_equal. f_equal. f_equal.
   induction F as [|e e' m m' [Hk Hv] _ IH]; [reflexivity|]. cbn [map].
   rewrite Hk, (Hv (ind + 2)%Z), IH. reflexivity.
 Qed.
 
-Theorem repr_order_canonical_nested_partial m m'' m' :
-  Permutation m m'' -> StrictKeys rk m ->
+Theorem repr_order_canonical_nested_gen m m'' m' :
+  Permutation m m'' -> KeysOrdered rk m -> (forall ind, TextsDistinct m ind) ->
   Forall2 (fun e e' => fst e = fst e' /\ SameText (snd e) (snd e')) m'' m' ->
   SameText (VMap m) (VMap m').
 Proof.
-  intros Pm SK F ind. rewrite (repr_order_canonical_partial m m'' ind Pm SK).
+  intros Pm KO TD F ind. rewrite (repr_order_canonical_gen m m'' ind Pm KO (TD ind)).
   apply same_text_map_pointwise. exact F.
 Qed.
 End ReprOrder.
 
 (* ------------------------------------------------------------------ *)
-(* the refutation: maps built by the trie model of pkg/persistent/hashmap
-   (model/C07.v) with vals.Hash and vals.Equal (model/C08_Value.v) *)
+(* maps built by the trie model of pkg/persistent/hashmap (model/C07.v) with
+   vals.Hash and vals.Equal (model/C08_Value.v) *)
 Definition trie := C07.hmap value value.
 Definition okey (k : value) : option value := match k with VNil => None | _ => Some k end.
 Definition trie_build (es : list (value * value)) : option trie :=
@@ -191,13 +255,6 @@ Definition map_of (es : list (value * value)) : option value :=
   match trie_build es with Some m => Some (VMap (trie_iter m)) | None => None end.
 
 Definition rk0 (t : N) : Z := Z.of_N t.
-Definition fmtF0 (b : N) : bytes := if b =? 0 then [48] else [49; 52; 55; 55; 56; 56; 52; 55; 56; 50].
-Definition repr0 (v : value) : bytes := ReprPlain ascii_print fmtF0 fmtF0 rk0 v.
-
-(* keys that tie under CmpTotal, are not Equal, and have the same Hash *)
-Definition tie_collide (a b : value) : bool :=
-  ordering_eqb (cmp_total4 rk0 a b) OEq && negb (equal a b) && (hash a =? hash b).
-
 Definition w_int0 := VInt 0.
 Definition w_flt0 := VFloat 0.
 Definition w_int := VInt 1477884782.
@@ -206,35 +263,67 @@ Definition w_mapA := VMap [(VStr [107], VStr [97; 98])].     (* [&k=ab] *)
 Definition w_mapB := VMap [(VStr [107], VStr [98; 65])].     (* [&k=bA] *)
 Definition w_lstA := VList false [VMap [(VStr [97; 98], VInt 1)]].
 Definition w_lstB := VList false [VMap [(VStr [98; 65], VInt 1)]].
+(* the cyclic triple: c and z are exact, f is inexact, both tie with f *)
+Definition w_c := VInt (-9007233084598711).
+Definition w_f := VFloat 14069245252820358364.         (* -9007233084598712.0 *)
+Definition w_z := VInt (-9007233084598713).
+
+Definition fmtF0 (b : N) : bytes :=
+  if b =? 0 then [48]
+  else if b =? 14069245252820358364 then [45; 57; 48; 48; 55; 50; 51; 51; 48; 56; 52; 53; 57; 56; 55; 49; 50]
+  else [49; 52; 55; 55; 56; 56; 52; 55; 56; 50].
+Definition repr0 (v : value) : bytes := ReprPlain ascii_print fmtF0 fmtF0 rk0 v.
+
+(* keys that tie under CmpTotal, are not Equal, and have the same Hash *)
+Definition tie_collide (a b : value) : bool :=
+  ordering_eqb (cmp_total rk0 a b) OEq && negb (equal a b) && (hash a =? hash b).
 
 Lemma planted_pairs_tie_and_collide :
   tie_collide w_int0 w_flt0 = true /\ tie_collide w_int w_flt = true
-  /\ tie_collide w_mapA w_mapB = true /\ tie_collide w_lstA w_lstB = true.
+  /\ tie_collide w_mapA w_mapB = true /\ tie_collide w_lstA w_lstB = true
+  /\ tie_collide w_z w_f = true.
 Proof. vm_compute. repeat split. Qed.
 
-(* two insertion orders of the same two entries: the maps are Equal, their
-   printed texts differ *)
-Definition order_matters (es : list (value * value)) : bool :=
-  match map_of es, map_of (rev es) with
+(* two insertion orders of the same entries: the maps are Equal, their printed
+   texts differ *)
+Definition order_matters2 (es1 es2 : list (value * value)) : bool :=
+  match map_of es1, map_of es2 with
   | Some a, Some b => wfb a && wfb b && equal a b && equal b a && negb (bytes_eqb (repr0 a) (repr0 b))
   | _, _ => false
   end.
+Definition order_matters (es : list (value * value)) : bool := order_matters2 es (rev es).
+
+(* with the tie-break the former witnesses print in one order *)
+Lemma old_witnesses_canonical :
+  order_matters [(w_int0, VStr [120]); (w_flt0, VStr [121])] = false
+  /\ order_matters [(w_int, VStr [120]); (w_flt, VStr [121])] = false
+  /\ order_matters [(w_mapA, VStr [120]); (w_mapB, VStr [121])] = false
+  /\ order_matters [(w_lstA, VStr [120]); (w_lstB, VStr [121])] = false.
+Proof. vm_compute. repeat split. Qed.
+
+(* the comparison of reprMap is cyclic on the triple: c < f and f < z by the
+   texts (both tie with f), z < c by value *)
+Definition lt0 (a b : value) : bool :=
+  @key_lt rk0 unit (a, (repr0 a, tt)) (b, (repr0 b, tt)).
+Lemma cyclic_triple : lt0 w_c w_f = true /\ lt0 w_f w_z = true /\ lt0 w_z w_c = true.
+Proof. vm_compute. repeat split. Qed.
+
+Definition es_zf := [(w_c, VStr [118]); (w_z, VStr [118]); (w_f, VStr [118])].
+Definition es_fz := [(w_c, VStr [118]); (w_f, VStr [118]); (w_z, VStr [118])].
 
 Lemma repr_order_refuted_w :
-  exists es a b, map_of es = Some a /\ map_of (rev es) = Some b
+  exists es1 es2 a b, Permutation es1 es2 /\ map_of es1 = Some a /\ map_of es2 = Some b
     /\ wfb a = true /\ wfb b = true /\ equal a b = true /\ repr0 a <> repr0 b.
 Proof.
-  exists [(w_int0, VStr [120]); (w_flt0, VStr [121])].
-  eexists. eexists. split; [vm_compute; reflexivity|]. split; [vm_compute; reflexivity|].
+  exists es_zf, es_fz. eexists. eexists.
+  split; [unfold es_zf, es_fz; apply perm_skip, perm_swap|].
+  split; [vm_compute; reflexivity|]. split; [vm_compute; reflexivity|].
   split; [vm_compute; reflexivity|]. split; [vm_compute; reflexivity|]. split; [vm_compute; reflexivity|].
   vm_compute. discriminate.
 Qed.
 
-Lemma order_matters_all :
-  order_matters [(w_int0, VStr [120]); (w_flt0, VStr [121])] = true
-  /\ order_matters [(w_int, VStr [120]); (w_flt, VStr [121])] = true
-  /\ order_matters [(w_mapA, VStr [120]); (w_mapB, VStr [121])] = true
-  /\ order_matters [(w_lstA, VStr [120]); (w_lstB, VStr [121])] = true
-  (* control: tie without collision is printed in one order *)
-  /\ order_matters [(VInt 1, VStr [120]); (VFloat 4607182418800017408, VStr [121])] = false.
-Proof. vm_compute. repeat split. Qed.
+(* at the level of iteration orders no collision is needed: the sort itself
+   depends on the order in which the three entries arrive *)
+Lemma sort_cyclic_w :
+  repr0 (VMap es_zf) <> repr0 (VMap (rev es_zf)).
+Proof. vm_compute. discriminate. Qed.
